@@ -49,6 +49,10 @@ def sanitize_universe(u, rng):
     root class a Path property that the harness can make raise"""
     for c in u.classes:
         for f in c.own:
+            if f.role == "Opt" and len(f.child_types) > 1:
+                # mashumaro reads a malformed value of Union[X, Y, None] as None (every variant is tried, NoneType
+                # accepts anything); the model has one class per optional child, so that malformed input raises
+                f.child_types = f.child_types[:1]
             if f.role != "Prop":
                 continue
             if f.ptype in ("fsetstr", "fsetint", "any"):
@@ -183,11 +187,17 @@ def reset_pyoak():
 
 
 # ------------------------------------------------------------------------------------------------ values
+DIGEST_SIZE = [8]
+
+
 def to_sval(x, sort=False):
-    """compact text of a JSON-like value: mirror of Run/SerCodec.v render"""
+    """salted digests of the compact text of a JSON-like value: mirror of Run/SerCodec.v render / tdig"""
+    import hashlib
+
     out = bytearray()
     _render(x, sort, out)
-    return Con("H" + bytes(out).hex())
+    r = bytes(out)
+    return "".join(hashlib.blake2b(salt + r, digest_size=DIGEST_SIZE[0]).hexdigest() for salt in (b"0", b"1", b"2", b"3"))
 
 
 def _render(x, sort, out):
@@ -295,7 +305,7 @@ FMTS = ["Dict", "Json", "Msgpack", "Yaml"]
 
 def gen_cases(rng, tier):
     cases = []
-    n_uni = 6 if tier == "quick" else 120
+    n_uni = 4 if tier == "quick" else 120
     default_call = Con("Ser", Con("Dict"), None, None, [])
     for _ in range(n_uni):
         u0 = make_universe(rng)
@@ -395,7 +405,7 @@ def impl(t, case):
 
     u = universe_from_json(case["opts"]["universe"])
     u.load()
-    config.ID_DIGEST_SIZE = case.get("digest_size") or 8
+    config.ID_DIGEST_SIZE = DIGEST_SIZE[0] = case.get("digest_size") or 8
     reset_pyoak()
     try:
         tree, calls = t.args[2], t.args[3]
